@@ -5565,6 +5565,48 @@ let inv_b k e m =
       | Some xt -> (&&) ((&&) (is_alloc xt) (is_live xt)) (negb (mem_id t0 d))
       | None -> false) m.pc)
 
+(** val loc_no_self : loc -> bool **)
+
+let loc_no_self = function
+| LFS _ -> false
+| _ -> true
+
+(** val node_no_self : nodeloc -> bool **)
+
+let node_no_self = function
+| NSelf -> false
+| NSlot _ -> true
+
+(** val cmd_no_self : cmd -> bool **)
+
+let cmd_no_self = function
+| CNew (d, _) -> loc_no_self d
+| CClone (a, b) -> (&&) (loc_no_self a) (loc_no_self b)
+| CDrop l -> loc_no_self l
+| CMove (a, b) -> (&&) (loc_no_self a) (loc_no_self b)
+| CMarkAlive l -> loc_no_self l
+| CDowngrade (l, _) -> loc_no_self l
+| CUpgrade (_, d) -> loc_no_self d
+| CTryUnwrap (l, _) -> loc_no_self l
+| CFinAgain l -> loc_no_self l
+| CNewCyclic (d, _, _, _) -> loc_no_self d
+| CRegister (n0, _, _) -> node_no_self n0
+| CBag (l, _) -> loc_no_self l
+| CBorrow n0 -> node_no_self n0
+| CUnborrow n0 -> node_no_self n0
+| CObs l -> loc_no_self l
+| _ -> true
+
+(** val wf_prog : prog -> bool **)
+
+let wf_prog p =
+  forallb (fun c ->
+    match c.c_drop with
+    | Some s ->
+      forallb cmd_no_self
+        (from_option (Obj.magic id) [] (lookup0 list_lookup s p.p_scripts))
+    | None -> true) p.p_classes
+
 (** val exact_b : id0 list -> machine -> bool **)
 
 let exact_b e m =
